@@ -52,6 +52,83 @@ class JoinPiece(object):
         self.items = list(items)
 
 
+ABSTRACT = {}  # id of the abstract term of a structured string -> (term, SCat)
+EQ_REG = {}    # id of an abstract equality between strings -> (term, left, right)
+
+
+def involves_abstract(terms, budget=400000):
+    """does one of the z3 terms contain the abstract term of a structured string?"""
+    if not ABSTRACT:
+        return False
+    seen = set()
+    stack = list(terms)
+    while stack:
+        t = stack.pop()
+        k = t.get_id()
+        if k in seen:
+            continue
+        seen.add(k)
+        if k in ABSTRACT:
+            return True
+        if len(seen) > budget:
+            return True
+        if z3.is_quantifier(t):
+            stack.append(t.body())
+        else:
+            stack.extend(t.children())
+    return False
+
+
+def concrete_under(s, model):
+    """the Python string a (structured / finite-choice / concrete / abstract) string denotes
+    under a z3 model, or None when the model does not determine it"""
+    from .sym import FV, lit_value, is_lit
+
+    def ev(g):
+        v = model.eval(g, model_completion=True)
+        return True if z3.is_true(v) else False if z3.is_false(v) else None
+
+    def piece(p):
+        if conc(p):
+            return p
+        if isinstance(p, FV):
+            vals = [v for g, v in zip(p.guards(), p.values) if ev(g) is True]
+            return vals[0] if len(vals) == 1 and isinstance(vals[0], str) else None
+        if isinstance(p, SCat):
+            return whole(p)
+        if isinstance(p, SStr):
+            v = model.eval(p.z, model_completion=True)
+            if z3.is_int_value(v):
+                return INTERN.decode(v.as_long())
+        return None
+
+    def whole(x):
+        out = []
+        for p in _parts(x):
+            if isinstance(p, JoinPiece):
+                if not conc(p.sep):
+                    return None
+                items = []
+                for g, e in p.items:
+                    t = ev(g)
+                    if t is None:
+                        return None
+                    if t:
+                        c = piece(e)
+                        if c is None:
+                            return None
+                        items.append(c)
+                out.append(p.sep.join(items))
+            else:
+                c = piece(p)
+                if c is None:
+                    return None
+                out.append(c)
+        return "".join(out)
+
+    return whole(s)
+
+
 class SCat(SStr):
     """
     structured symbolic string: the concatenation of pieces, each piece a concrete str, a
@@ -79,6 +156,9 @@ class SCat(SStr):
             for t in reversed(terms[:-1]):
                 acc = f_concat(t, acc)
             self._z = z3.simplify(acc)
+            # the abstract term knows nothing about the structure: a counter-model that involves
+            # it must be confirmed on the structure (PathState._prove_one) before it is believed
+            ABSTRACT[self._z.get_id()] = (self._z, self)
         return self._z
 
     def __repr__(self):
@@ -562,6 +642,28 @@ def scat_is_empty(s):
             if pv is not None and all(v != "" for v in pv):
                 return False
     return None
+
+
+def scat_empty_z(s):
+    """z3 condition under which a structured string is empty; None when the structure does not
+    decide it (an element that may itself be empty, an abstract piece)"""
+    from .sym import FV, fv_guard_of
+
+    conj = []
+    for p in _parts(s):
+        if isinstance(p, JoinPiece):
+            for g, e in p.items:
+                pv = possible_values(e)
+                if pv is None or any(v == "" for v in pv):
+                    return None
+            conj.append(z3.Not(_or([g for g, _ in p.items])) if p.items else z3.BoolVal(True))
+        elif conc(p):
+            conj.append(z3.BoolVal(p == ""))
+        elif isinstance(p, FV):
+            conj.append(fv_guard_of(p, lambda x: x == ""))
+        else:
+            return None
+    return _and(conj) if conj else z3.BoolVal(True)
 
 
 def scat_endswith(s, c):
